@@ -31,9 +31,14 @@ rm -f "$dest"/zz_demo_*_test.go
 rs=skipped
 if [ -z "$skip" ]; then
   echo "== full existing suite with the change" >>"$log"
-  go test -vet=off -count=1 -timeout 25m ./... > "$out/suite.log" 2>&1
-  # known environment failures (offline DNS, 10ms wall-clock bound) are not attributable to the change
-  fails=$(grep -E "^(FAIL|---) " "$out/suite.log" | grep -E "^FAIL\s" | grep -v -E "conditions/node|pkg/query/dns" | wc -l)
+  go test -vet=off -count=1 -timeout 60m ./... > "$out/suite.log" 2>&1
+  # known environment failures (offline DNS, 10ms wall-clock bound) are not attributable to the change;
+  # a package that fails under machine load is run again alone and only counts if it fails again
+  fails=0
+  for pkg in $(grep -E "^FAIL\s" "$out/suite.log" | awk '{print $2}' | grep -v -E "conditions/node|pkg/query/dns"); do
+    echo "== re-running $pkg alone" >> "$out/suite.log"
+    if ! go test -vet=off -count=1 -timeout 60m "$pkg" >> "$out/suite.log" 2>&1; then fails=$((fails+1)); fi
+  done
   rs=$fails
   grep -E "^(ok|FAIL)\s" "$out/suite.log" >>"$log"
   echo "unexpected failing packages: $fails" >>"$log"
